@@ -13,7 +13,7 @@ import numpy as np
 
 from sim import core
 from sim.fsseam import FsSeam
-from sim.preds import (CALLABLE_KINDS, as_callable, gen_interval, gen_level_pred, gen_value_pred, interval_accepts, interval_func, level_accepts, level_func, value_accepts,
+from sim.preds import (CALLABLE_KINDS, as_callable, gen_dx_pred, gen_interval, gen_level_pred, gen_value_pred, interval_accepts, interval_func, level_accepts, level_func, value_accepts,
                        value_func)
 from sim.wcheck import Disk, MeshView, compare_full, components, gen_world_params
 from checks.c01 import world_reductions
@@ -76,6 +76,8 @@ def gen_selection(rng, p, leaves=None):
             sel["intervals"].append(gen_interval(rng, c, p["levelmax"]))
     if rng.random() < 0.3:
         sel["values"].append(gen_value_pred(rng, p, ncells_hint=rng.choice([8, 64, 300, 2000])))
+    if rng.random() < 0.1:
+        sel["values"].append(gen_dx_pred(rng, p["levelmin"], p["levelmax"]))
     if rng.random() < 0.25:
         # 'level' is a mesh variable like any other: a predicate on it caps the traversal (C12) while the
         # position predicates drive the CPU pre-selection
@@ -297,7 +299,7 @@ def reductions(case, viol):
             continue
         ok = True
         for s in sels:
-            if any(v["var"] not in q["hydro_vars"] for v in s["values"]):
+            if any(v["var"] != "dx" and v["var"] not in q["hydro_vars"] for v in s["values"]):
                 ok = False
             if s["cpu_list"] and max(s["cpu_list"]) > q["ncpu"]:
                 ok = False
